@@ -64,6 +64,8 @@ deriving DecidableEq, Repr
 inductive Payload where
   | ofRec (r : Rec)
   | ofHint (h : Hint)
+  /-- bytes that are not a whole entry (the cut-off tail a crash leaves behind) -/
+  | raw (bs : List UInt8)
 deriving DecidableEq, Repr
 
 /-- one file-system effect -/
@@ -88,6 +90,9 @@ deriving Repr
 structure Disk where
   data : List (Nat × List Rec) := []
   hint : List (Nat × List Hint) := []
+  /-- bytes of a data file after its last complete entry (left by a crash; invisible to every
+      scan and read, but counted by `fs::metadata().len()`) -/
+  tails : List (Nat × Nat) := []
 deriving Repr
 
 /-- in-memory state + directory -/
@@ -209,7 +214,7 @@ def fragGt (st : Stat) (num den : Nat) : Bool :=
 def selectFiles (cfg : Cfg) (s : St) : List Nat :=
   let ids := (s.stats.filter fun (fid, st) =>
     st.deadBytes > cfg.deadBytes || fragGt st cfg.fragNum cfg.fragDen ||
-      fileSize (dataOf s.disk fid) < cfg.smallFile).map (·.1)
+      fileSize (dataOf s.disk fid) + (AL.get fid s.disk.tails).getD 0 < cfg.smallFile).map (·.1)
   ids.mergeSort (· ≤ ·)
 
 structure MergeSt where
@@ -232,8 +237,8 @@ def mergeStep (cfg : Cfg) (sel : List Nat) (m : MergeSt) (k : Key) : MergeSt :=
         let newLoc : Loc := { fid := m.mid, pos := m.mpos, len := nbytes, ts := loc.ts }
         let h : Hint := { ts := loc.ts, len := nbytes, pos := m.mpos, key := k }
         let hs := (AL.get m.mid m.s.disk.hint).getD []
-        let disk : Disk := { data := AL.set m.mid (out ++ [r]) m.s.disk.data,
-                             hint := AL.set m.mid (hs ++ [h]) m.s.disk.hint }
+        let disk : Disk := { m.s.disk with data := AL.set m.mid (out ++ [r]) m.s.disk.data,
+                                           hint := AL.set m.mid (hs ++ [h]) m.s.disk.hint }
         let s1 : St := { m.s with disk := disk, keydir := AL.set k newLoc m.s.keydir,
                                   stats := updStat m.s.stats m.mid (·.addLive),
                                   bad := m.s.bad || decide (r.len ≠ loc.len) }
@@ -241,9 +246,10 @@ def mergeStep (cfg : Cfg) (sel : List Nat) (m : MergeSt) (k : Key) : MergeSt :=
         let mpos := m.mpos + nbytes
         if mpos > cfg.maxFile then
           let mid' := m.mid + 1
-          { s := { s1 with disk := { data := AL.set mid' [] s1.disk.data, hint := AL.set mid' [] s1.disk.hint } },
+          { s := { s1 with disk := { s1.disk with data := AL.set mid' [] s1.disk.data, hint := AL.set mid' [] s1.disk.hint } },
             mid := mid', mpos := 0,
-            calls := calls ++ [Call.create ⟨.data, mid'⟩, Call.create ⟨.hint, mid'⟩] }
+            calls := calls ++ [Call.fsync ⟨.data, m.mid⟩, Call.fsync ⟨.hint, m.mid⟩,
+                               Call.create ⟨.data, mid'⟩, Call.create ⟨.hint, mid'⟩] }
         else { s := s1, mid := m.mid, mpos := mpos, calls := calls }
     else m
 
@@ -253,7 +259,7 @@ def unlinkOne (m : St × List Call) (id : Nat) : St × List Call :=
   let hadHint := (AL.get id s.disk.hint).isSome
   let hadData := (AL.get id s.disk.data).isSome
   ({ s with stats := AL.del id s.stats,
-            disk := { data := AL.del id s.disk.data, hint := AL.del id s.disk.hint } },
+            disk := { s.disk with data := AL.del id s.disk.data, hint := AL.del id s.disk.hint } },
    calls ++ (if hadHint then [Call.unlink ⟨.hint, id⟩] else [])
          ++ (if hadData then [Call.unlink ⟨.data, id⟩] else []))
 
@@ -261,11 +267,13 @@ def unlinkOne (m : St × List Call) (id : Nat) : St × List Call :=
     the KeyDir iterator yields its keys (any list covering the KeyDir; DashMap order is arbitrary) -/
 def mergeWith (cfg : Cfg) (s : St) (sel : List Nat) (order : List Key) : St × List Call :=
   let mid0 := s.active + 1
-  let s0 : St := { s with disk := { data := AL.set mid0 [] s.disk.data, hint := AL.set mid0 [] s.disk.hint } }
+  let s0 : St := { s with disk := { s.disk with data := AL.set mid0 [] s.disk.data, hint := AL.set mid0 [] s.disk.hint } }
   let m0 : MergeSt := { s := s0, mid := mid0, mpos := 0,
                         calls := [Call.create ⟨.data, mid0⟩, Call.create ⟨.hint, mid0⟩] }
   let m := order.foldl (mergeStep cfg sel) m0
-  let (s1, calls1) := sel.foldl unlinkOne (m.s, m.calls)
+  -- the outputs are forced to stable storage before the first input file is removed
+  let synced := m.calls ++ [Call.fsync ⟨.data, m.mid⟩, Call.fsync ⟨.hint, m.mid⟩]
+  let (s1, calls1) := sel.foldl unlinkOne (m.s, synced)
   let (s2, c2) := newActive s1 (m.mid + 1)
   (s2, calls1 ++ c2)
 
@@ -285,9 +293,10 @@ def Idx.account (ix : Idx) (prev : Option Loc) : Idx :=
   | some p => { ix with bad := ix.bad || overwriteUnderflows ix.stats p.fid,
                         stats := updStat ix.stats p.fid (·.overwrite p.len) }
 
-/-- `populate_keydir_with_hintfile` -/
-def scanHints (fid : Nat) (ix : Idx) (hs : List Hint) : Idx :=
-  hs.foldl (fun ix h =>
+/-- `populate_keydir_with_hintfile`: entries are read until the first one that does not fit inside
+    the data file (`dataLen` = its length in bytes) -/
+def scanHints (fid : Nat) (ix : Idx) (hs : List Hint) (dataLen : Nat) : Idx :=
+  (hs.takeWhile fun h => h.pos + h.len ≤ dataLen).foldl (fun ix h =>
     let loc : Loc := { fid := fid, pos := h.pos, len := h.len, ts := h.ts }
     let ix1 := { ix with stats := updStat ix.stats fid (·.addLive) }
     let prev := AL.get h.key ix1.keydir
@@ -319,7 +328,7 @@ def rebuild (d : Disk) : Idx × Nat :=
   let ids := sortedIds d
   let ix := ids.foldl (fun ix fid =>
     match AL.get fid d.hint with
-    | some hs => scanHints fid ix hs
+    | some hs => scanHints fid ix hs (fileSize (dataOf d fid) + (AL.get fid d.tails).getD 0)
     | none => scanData fid ix (dataOf d fid)) ({} : Idx)
   (ix, match ids.getLast? with | some m => m + 1 | none => 0)
 
